@@ -289,7 +289,9 @@ func genC14Invalid(t *rapid.T) c14Spec {
 	s := c14Spec{Class: "invalid:" + kind}
 	a4, a6 := genV4(t, "a4"), genV6(t, "a6")
 	bad4 := rapid.SampledFrom([]string{"192.0.2.", "192.0.2.256", "1.2.3", "1.2.3.4.5", "1..2.3", "a.b.c.d", "", "1.2.3.4 "}).Draw(t, "bad4")
-	bad6 := rapid.SampledFrom([]string{"2001:db8", "2001:db8:::1", "g::1", "1:2:3:4:5:6:7:8:9", "::1::"}).Draw(t, "bad6")
+	// (an address with a zone - "fe80::1%eth0" - is not an address of the documented grammar: other parsers take it and
+	// drop the zone, which would admit that address from every interface)
+	bad6 := rapid.SampledFrom([]string{"2001:db8", "2001:db8:::1", "g::1", "1:2:3:4:5:6:7:8:9", "::1::", "fe80::1%eth0", "fe80::%1", "::ffff:192.0.2.1%lo", "::1%", "2001:db8::1%25eth0"}).Draw(t, "bad6")
 	switch kind {
 	case "bad-addr":
 		s.Text = rapid.SampledFrom([]string{bad4, bad6}).Draw(t, "pick")
